@@ -14,6 +14,9 @@ machine does not turn a slow job into a false "hang"); only a second overrun is 
 Workers are forked, so they see the repository modules the parent imported (harness.env.setup()).
 After `max_hangs` confirmed hangs the remaining jobs are not started (status "skipped"): the point is
 made, and a code base that loops on a whole class of inputs would otherwise cost budget x jobs.
+`scale` (optional, one factor per job) multiplies both budgets of that job: a job that is legitimately
+N times bigger than the others (a 3000-element document, a long run of many certificates in one
+process) gets N times the time.
 Results come back in job order; everything is deterministic given the jobs."""
 import multiprocessing as mp
 import multiprocessing.connection as mpc
@@ -75,7 +78,7 @@ class Results(list):
     stats = None
 
 
-def run_jobs(fn, jobs, nproc=4, budget=2.0, retry_budget=10.0, max_hangs=8):
+def run_jobs(fn, jobs, nproc=4, budget=2.0, retry_budget=10.0, max_hangs=8, scale=None):
     ctx = mp.get_context("fork")
     n = len(jobs)
     out = Results([None] * n)
@@ -91,7 +94,7 @@ def run_jobs(fn, jobs, nproc=4, budget=2.0, retry_budget=10.0, max_hangs=8):
             if retry:
                 i = retry.pop()
                 second.add(i)
-                w.give(i, jobs[i], retry_budget)
+                w.give(i, jobs[i], retry_budget * (scale[i] if scale else 1))
             elif pending and out.stats["hangs"] >= max_hangs:
                 while pending:
                     out[pending.pop()] = {"status": "skipped"}
@@ -99,7 +102,7 @@ def run_jobs(fn, jobs, nproc=4, budget=2.0, retry_budget=10.0, max_hangs=8):
                 w.job = None
             elif pending:
                 i = pending.pop()
-                w.give(i, jobs[i], budget)
+                w.give(i, jobs[i], budget * (scale[i] if scale else 1))
             else:
                 w.job = None
         for w in workers:
